@@ -126,6 +126,7 @@ type Interp struct {
 	mapRot        int
 	pathViolated  bool
 	isolver       *Solver
+	inStub        map[string]bool
 	oneSided      []oneSidedRec
 	traced        []Observation
 	deadline      time.Time
@@ -172,6 +173,7 @@ type JobConfig struct {
 	UnwindBound int
 	ShuffleSwaps int
 	EagerAsserts bool
+	Stubs        map[string]string
 	JobTimeoutS  int
 	AssertPrefix []string
 	NoIntMode    bool
@@ -642,6 +644,30 @@ func (in *Interp) callFunction(fn *ssa.Function, args []Value, env []Value, site
 	name := fn.String()
 	if in.callLog != nil {
 		in.callLog[name] = true
+	}
+	if rep, ok := in.cfg.Stubs[name]; ok && !in.inStub[name] {
+		// a cut (DESIGN §3.1): the call is replaced by a harness-provided stand-in or by "returns zero values"
+		in.modelsLog["stub:"+name+"->"+rep] = true
+		if rep == "zero" {
+			res := fn.Signature.Results()
+			switch res.Len() {
+			case 0:
+				return nil
+			case 1:
+				return in.zero(res.At(0).Type())
+			}
+			return in.zero(res)
+		}
+		var rf *ssa.Function
+		if fn.Pkg != nil {
+			rf = fn.Pkg.Func(rep)
+		}
+		if rf == nil {
+			panic(unsupported{"stub function not found: " + rep})
+		}
+		in.inStub[name] = true
+		defer func() { in.inStub[name] = false }()
+		return in.callFunction(rf, args, nil, site)
 	}
 	if m, ok := models[name]; ok {
 		in.modelsLog[name] = true
